@@ -1,5 +1,6 @@
 import CCVerif.Model.Json
 import CCVerif.Model.JsonDoc
+import CCVerif.Model.JsonOss
 import Driver.Util
 import Driver.C16
 /-! Driver ops for C10: leaf codecs next to the property (decoded value = original), and the
@@ -216,12 +217,116 @@ def handleDoc (args : List String) : String :=
     | none => "bad-arg\tn/a"
   | _ => "bad-op\tn/a"
 
+
+/-! ### OSS documents (`Model/JsonOss.lean`); wire form: see harness/c10_main.cpp -/
+section OssDoc
+open CCVerif.JsonOss
+
+def splitNE (s : String) (sep : String) : List String := if s == "#" then [] else s.splitOn sep
+
+def readOpts (s : String) : Option EqRows :=
+  if s == "~" then none else
+  some ((splitNE s "+").filterMap fun r => match r.splitOn ">" with
+    | [k, v, m, a] => some (parseNat k, parseNat v,
+        ({ mode := (match m with | "2" => .keepDel | "3" => .createNew | _ => .keepHier), arg := hexToString a } : CCVerif.JsonOss.Equation))
+    | _ => none)
+def readTrs (s : String) : Option (List Tr) :=
+  if s == "~" then none else
+  some ((splitNE s "+").map fun t => if t == "@" then [] else
+    (t.splitOn "/").filterMap fun p => match p.splitOn ">" with | [a, b] => some (parseNat a, parseNat b) | _ => none)
+def readOssSrc (s : String) : Option SrcHandle :=
+  match s.splitOn ":" with
+  | [n, t, c, f] => some { name := hexToString n, type := if t == "1" then .rsDoc else .tba, coreHash := parseNat c, fullHash := parseNat f }
+  | _ => none
+def readOssOp (s : String) : Option OpHandle :=
+  match s.splitOn ":" with
+  | [t, b, o, opts, trs] =>
+    some { type := (match t with | "4" => .merge | "8" => .synt | _ => .tba), broken := b == "1", outdated := o == "1",
+           options := readOpts opts, translations := readTrs trs }
+  | _ => none
+def readPict (s : String) : Option Pict :=
+  match s.splitOn "," with
+  | [uid, dt, title, alias, comment, addr, sub, row, col, src, op] =>
+    some { uid := parseNat uid, dataType := if dt == "1" then .rsSchema else .tba, title := hexToString title,
+           alias := hexToString alias, comment := hexToString comment,
+           link := { address := hexToString addr, subAddr := hexToString sub },
+           pos := ⟨parseInt row, parseInt col⟩, src := readOssSrc src, op := readOssOp op }
+  | _ => none
+def readRows (s : String) : Rows :=
+  (splitNE s ";").filterMap fun r => match (r.splitOn ">").map parseNat with
+    | c :: ps => some (c, ps)
+    | [] => none
+def readOss (hdr items rows : String) : Option Oss :=
+  match (splitNE items ";").mapM readPict with
+  | some ps => let (t, c, d) := readHdr hdr; some { title := t, comment := c, domain := d, items := ps, rows := readRows rows }
+  | none => none
+
+def showOpts : Option EqRows → String
+  | none => "~"
+  | some [] => "#"
+  | some rs => joinWith "+" (rs.map fun (k, v, e) =>
+      s!"{k}>{v}>{match e.mode with | .keepHier => 1 | .keepDel => 2 | .createNew => 3}>{stringToHex e.arg}")
+def showTrs : Option (List Tr) → String
+  | none => "~"
+  | some [] => "#"
+  | some ts => joinWith "+" (ts.map fun t => if t.isEmpty then "@" else joinWith "/" (t.map fun p => s!"{p.1}>{p.2}"))
+def showOssSrc : Option SrcHandle → String
+  | none => "-"
+  | some h => s!"{stringToHex h.name}:{match h.type with | .tba => 0 | .rsDoc => 1}:{h.coreHash}:{h.fullHash}"
+def showOssOp : Option OpHandle → String
+  | none => "-"
+  | some h => s!"{match h.type with | .tba => 0 | .merge => 4 | .synt => 8}:{bit h.broken}:{bit h.outdated}:{showOpts h.options}:{showTrs h.translations}"
+def showPict (p : Pict) : String :=
+  joinWith "," [toString p.uid, (match p.dataType with | .tba => "0" | .rsSchema => "1"), stringToHex p.title, stringToHex p.alias,
+    stringToHex p.comment, stringToHex p.link.address, stringToHex p.link.subAddr, toString p.pos.row, toString p.pos.col,
+    showOssSrc p.src, showOssOp p.op]
+
+def insSorted {α} (key : α → Nat) (x : α) : List α → List α
+  | [] => [x]
+  | y :: ys => if key x < key y then x :: y :: ys else y :: insSorted key x ys
+def sortByKey {α} (key : α → Nat) (l : List α) : List α := l.foldl (fun acc x => insSorted key x acc) []
+
+/-- the hash-ordered containers in the order the harness prints them -/
+def canonPict (p : Pict) : Pict :=
+  { p with op := p.op.map fun h => { h with options := h.options.map (sortByKey (·.1)), translations := h.translations.map (·.map (sortByKey (·.1))) } }
+def showOssItems (ps : List Pict) : String :=
+  if ps.isEmpty then "#" else joinWith ";" ((sortByKey (·.uid) ps).map fun p => showPict (canonPict p))
+def showRows (g : Rows) : String :=
+  let g := g.filter (!·.2.isEmpty)
+  if g.isEmpty then "#" else joinWith ";" (g.map fun r => joinWith ">" ((r.1 :: r.2).map toString))
+def showOss (c : Oss) : String := s!"{showHdr c.title c.comment c.domain} {showOssItems c.items} {showRows c.rows}"
+
+def handleOss (args : List String) : String :=
+  match args with
+  | ["ossdocsave", hdr, items, rows] =>
+    match readOss hdr items rows with
+    | some c => s!"{render (ossToJson c)}\tx"
+    | none => "bad-arg\tn/a"
+  | ["ossdocload", fresh, doc] =>
+    match readTree doc with
+    | some j =>
+      let env : CCVerif.JsonOss.Env := { fresh := fun _ => parseNat fresh }
+      match ossFromJson env j with
+      | .ok c => s!"{showOss c} wf={bit (structOkB c)}\tx"
+      | .error (.format _) => "none-format\tx"
+      | .error (.unmodelled w) => s!"unmodelled:{w}\tx"
+    | none => "bad-arg\tn/a"
+  | _ => "bad-op\tn/a"
+
+end OssDoc
+
 end Doc
 
 def handle (args : List String) : String :=
   match args with
   | "docsave" :: _ => handleDoc args
   | "docload" :: _ => handleDoc args
+  | "ossdocsave" :: _ => handleOss args
+  | "ossdocload" :: _ => handleOss args
+  | "ossrt" :: _ => "skip\t1"
+  | "ossstable" :: _ => "skip\t1"
+  -- the second TEXT: the order of hash containers is not specified by the model (informational)
+  | "ossstableraw" :: _ => "skip\tx"
   | ["flags", a, t, d, c] =>
     let f : TrackingFlags := { allowEdit := a == "1", term := t == "1", definition := d == "1", convention := c == "1" }
     let rt := bit (TrackingFlags.fromJson f.toJson == some f)
